@@ -394,13 +394,66 @@ func numberSeq(c *Case) int {
 	for i := range c.Then {
 		c.Then[i].Ops = append([]Op{}, c.Then[i].Ops...)
 		num(c.Then[i].Ops)
+		c.Then[i].Async = append([]Op{}, c.Then[i].Async...)
+		num(c.Then[i].Async)
 	}
 	return k
+}
+
+// registry calls that FAIL between Sends, each followed by a RegisterPipeline that references the ids it touched: the
+// registry model says which object every id resolves to afterwards (a refused call changes nothing).
+// The base of these sequences also has node 7 registered with DenyOverwrite and pipeline 6 registered with DenyOverwrite.
+func seqRefusals(idType map[int]int) [][]Op {
+	return [][]Op{
+		// RegisterNode refused by the id's DenyOverwrite policy, with another object
+		{{K: "regnode", ID: 7, Ty: 1}, {K: "regpipe", Pid: 5, Ety: 1, IDs: []int{7, 3, 5}}},
+		{{K: "regnode", ID: 7, Ty: 1, Pol: 1}, {K: "regpipe", Pid: 1, Ety: 1, IDs: []int{7, 3, 5}}},
+		// RegisterNode with an invalid policy, with an empty id
+		{{K: "regnode", ID: 1, Ty: 1, Pol: 3}, {K: "regpipe", Pid: 1, Ety: 1, IDs: []int{1, 3, 5}}},
+		{{K: "regnode", ID: 0, Ty: 1}, {K: "regnode", ID: 2, Ty: 1, Pol: 3}, {K: "regpipe", Pid: 5, Ety: 1, IDs: []int{2, 4, 6}}},
+		// RegisterPipeline refused: existing DenyOverwrite pipeline (other nodes), unregistered node, bad shape — as overwrite and as first registration
+		{{K: "regpipe", Pid: 6, Ety: 1, IDs: []int{1, 3, 5}}, {K: "regpipe", Pid: 5, Ety: 1, IDs: []int{1, 3, 5}}},
+		{{K: "regpipe", Pid: 1, Ety: 1, IDs: []int{1, 9, 5}}, {K: "regpipe", Pid: 8, Ety: 1, IDs: []int{9, 3, 5}}, {K: "regpipe", Pid: 5, Ety: 1, IDs: []int{1, 3, 5}}},
+		{{K: "regpipe", Pid: 1, Ety: 1, IDs: []int{1, 5}}, {K: "regpipe", Pid: 8, Ety: 1, IDs: []int{3, 1, 5}}, {K: "regpipe", Pid: 8, Ety: 3, IDs: []int{1, 6}}, {K: "regpipe", Pid: 5, Ety: 1, IDs: []int{1, 3, 6}}},
+		// RemoveNode refused (in use), then the id is used again
+		{{K: "rmnode", ID: 3}, {K: "rmnode", ID: 5}, {K: "regpipe", Pid: 5, Ety: 1, IDs: []int{2, 3, 5}}},
+		// RemovePipelineAndNodes / RemovePipeline of an unknown pipeline, of a type without graph
+		{{K: "rpan", Pid: 8, Ety: 1}, {K: "rmpipe", Pid: 8, Ety: 1}, {K: "rpan", Pid: 1, Ety: 3}, {K: "regpipe", Pid: 5, Ety: 1, IDs: []int{1, 4, 6}}},
+		// a refused RegisterNode after the id was released and registered again with DenyOverwrite
+		{{K: "rmpipe", Pid: 2, Ety: 1}, {K: "rmnode", ID: 6}, {K: "regnode", ID: 6, Ty: 3, Pol: 2}, {K: "regnode", ID: 6, Ty: 3}, {K: "regpipe", Pid: 2, Ety: 1, IDs: []int{2, 4, 6}}},
+	}
 }
 
 func genSequence(e *emitter, r *hc.Rand, nRandom int) {
 	base, idType := seqBase()
 	muts := seqMutations(idType)
+	{
+		idType[7] = 1
+		rbase := append(append([]Op{}, base...), Op{K: "regnode", ID: 7, Ty: 1, Pol: 2}, Op{K: "regpipe", Pid: 6, Ety: 1, IDs: []int{7, 4, 6}, Pol: 2},
+			Op{K: "thr", Ety: 1, V: 4})
+		for i, f := range seqRefusals(idType) {
+			for j, m := range [][]Op{nil, muts[0], muts[2], muts[5]} {
+				for order := 0; order < 2; order++ {
+					if m == nil && order == 1 {
+						continue
+					}
+					c := Case{Gen: "sequence-refusals", Hist: rbase, Ety: 1, Then: []Step{{Ops: f, Ety: 1}, {Ops: m, Ety: 1}}}
+					if order == 1 {
+						c.Then = []Step{{Ops: m, Ety: 1}, {Ops: f, Ety: 1}}
+					}
+					n := numberSeq(&c)
+					c.Beh = make([][]int, n)
+					for o := range c.Beh {
+						c.Beh[o] = []int{0}
+						if (i+j+o)%5 == 4 {
+							c.Beh[o] = []int{[]int{1, 2, 3}[(i+o)%3]}
+						}
+					}
+					e.runSeq(c)
+				}
+			}
+		}
+	}
 	mkBeh := func(n int, rr *hc.Rand) [][]int {
 		beh := make([][]int, n)
 		for o := range beh {
@@ -468,6 +521,10 @@ func genTwoSend(e *emitter, r *hc.Rand, reps int) {
 		Op{K: "regpipe", Pid: 1, Ety: 2, IDs: []int{1, 2, 3}}, Op{K: "thr", Ety: 1, V: 2})
 	// (gated object, pipeline, position of the gated node)
 	for _, g := range [][3]int{{3, 1, 2}, {1, 1, 0}, {5, 2, 1}, {2, 1, 1}} {
+		if e.stats["send_did_not_return"] >= 6 {
+			e.stats["twosend_cut_short_after_hangs"]++
+			break // every hang costs the watchdog's seconds; six replays are enough
+		}
 		for _, caller := range []int{1, 0} {
 			for _, mode := range []int{0, 1} {
 				pt := Point{Hook: "node.call", P: g[1], K: g[2], Occ: 1}
@@ -480,6 +537,61 @@ func genTwoSend(e *emitter, r *hc.Rand, reps int) {
 					c.Then = append(c.Then, Step{Ety: 1, Gate: []int{g[0]}, Sched: Sched{CancelAt: &pt2, Mode: mode, HoldGate: true, Caller: caller}})
 				}
 				c.Then = append(c.Then, Step{Ety: 1, Sched: Sched{Caller: caller, Ctx: 2}}, Step{Ety: 2, Sched: Sched{Caller: 1 - caller}})
+				n := numberSeq(&c)
+				c.Beh = make([][]int, n)
+				for o := range c.Beh {
+					c.Beh[o] = []int{0}
+				}
+				c.Beh[2], c.Beh[4] = []int{2, 0}, []int{0, 2}
+				e.runSeq(c)
+			}
+		}
+	}
+}
+
+// ---------- twosend with a third party: a registry call between the two Sends, while Send #1's node is parked ----------
+// While Send #1 (cancelled) still has a node inside Process — its root node especially — a third party changes the registry of
+// the same type on a goroutine of its own (another pipeline registered, one overwritten, RemovePipeline,
+// RemovePipelineAndNodes, RemoveNode, a threshold); then Send #2 — other type and same type, live and already cancelled
+// context — must return under the watchdog; then the gate opens, and the registry call and both Sends must be over.
+func genTwoSendThirdParty(e *emitter, gates int) {
+	idType := map[int]int{1: 1, 2: 2, 3: 3, 4: 4, 5: 3, 6: 1}
+	var base []Op
+	for id := 1; id <= 6; id++ {
+		base = append(base, Op{K: "regnode", ID: id, Ty: idType[id]})
+	}
+	base = append(base, Op{K: "regpipe", Pid: 1, Ety: 1, IDs: []int{1, 2, 3}}, Op{K: "regpipe", Pid: 2, Ety: 1, IDs: []int{4, 5}},
+		Op{K: "regpipe", Pid: 1, Ety: 2, IDs: []int{6, 2, 3}}, Op{K: "thr", Ety: 1, V: 2})
+	third := [][]Op{
+		{{K: "regpipe", Pid: 3, Ety: 1, IDs: []int{6, 4, 5}}},
+		{{K: "regpipe", Pid: 2, Ety: 1, IDs: []int{6, 2, 5}}},
+		{{K: "rmpipe", Pid: 2, Ety: 1}},
+		{{K: "rpan", Pid: 2, Ety: 1}},
+		{{K: "rpan", Pid: 1, Ety: 1}},
+		{{K: "rmnode", ID: 6}, {K: "rmnode", ID: 1}},
+		{{K: "thr", Ety: 1, V: 1}, {K: "thrs", Ety: 1, V: 1}},
+	}
+	// (gated object, pipeline, position): the root node first
+	gateList := [][3]int{{1, 1, 0}, {4, 2, 0}, {3, 1, 2}, {2, 1, 1}}
+	if gates < len(gateList) {
+		gateList = gateList[:gates]
+	}
+	k := 0
+	for _, g := range gateList {
+		for _, tp := range third {
+			if e.stats["send_did_not_return"] >= 6 {
+				e.stats["twosend_cut_short_after_hangs"]++
+				return
+			}
+			for s2 := 0; s2 < 4; s2++ {
+				k++
+				pt := Point{Hook: "node.call", P: g[1], K: g[2], Occ: 1}
+				c := Case{Gen: "twosend-third-party", Hist: base, Ety: 1, Gate: []int{g[0]},
+					Sched: Sched{CancelAt: &pt, Mode: k % 2, HoldGate: true, Caller: k % 2}}
+				c.Then = []Step{
+					{Async: tp, Ety: 2 - s2%2, Sched: Sched{Pre: s2 >= 2, Caller: (k / 2) % 2}},
+					{Ety: 1}, {Ety: 2},
+				}
 				n := numberSeq(&c)
 				c.Beh = make([][]int, n)
 				for o := range c.Beh {
